@@ -160,6 +160,14 @@ func (s *SecureChannel) VerifSetSequenceNumber(n uint32) bool {
 	return true
 }
 
+// VerifSetReceivedSequenceNumber sets the number of the last chunk the channel
+// has accepted. It pairs with VerifSetSequenceNumber on the peer, so that a
+// test can start both ends of a channel at a chosen point of the numbering.
+// Call it only while no chunk is in flight towards this channel.
+func (s *SecureChannel) VerifSetReceivedSequenceNumber(n uint32) {
+	s.recvSeq, s.recvSeqSet = n, true
+}
+
 // VerifActiveMaxBodySize returns the max body size of the active instance.
 func (s *SecureChannel) VerifActiveMaxBodySize() uint32 {
 	s.instancesMu.Lock()
